@@ -298,6 +298,8 @@ def run(P, R, tier):
     _traps.check(P, R, ['factor_analysis'], scope='factor_analysis:(FactorAnalysisBase\\.(_compute_\\w+|_latent_\\w+|compute_latent_x|update_[xyzUVD]|compute_accumulators_[UVD]|_get_statistics_by_class_id|_sum_[nf]_statistics|initialize\\w*)|JFAMachine\\.(e_step_\\w|m_step_\\w|finalize_\\w|fit)|reduce_iadd)')
     from ..engines import proto as _pacc
     n_acc_ = 0
+    for nm_ in ("_sum_n_statistics", "_sum_f_statistics"):
+        _pacc.check_label_compares(P, R, "factor_analysis:FactorAnalysisBase." + nm_)
     for nm_ in ("_sum_n_statistics", "_sum_f_statistics", "compute_accumulators_U", "compute_accumulators_V", "compute_accumulators_D"):
         n_acc_ += _pacc.check_accumulation_signs(P, R, "factor_analysis:FactorAnalysisBase." + nm_)
     R.floor("ACC.sum in-place accumulations", n_acc_, 4)
@@ -309,3 +311,4 @@ def run(P, R, tier):
 
 
 EXPLANATION += ' Also: (ACC.sum) accumulators are summed over classes / sessions; (POL.acc-placement) every factor of A1 / A2 multiplies; (OPT); (IDX.class-select); (COVER.reduce_iadd / COVER.pairs) per-class accumulators are folded whole; (DTYPE.raw).'
+EXPLANATION += ' (ACC.sum / IDX.class-eq as in C07); (POL.mult-along-axis) the helper multiplies; (COVER.tree) reduce_iadd written as a tree covers every element.'
